@@ -73,7 +73,9 @@ def glob_shapes(project, entry, rng):
 
 def rules_above(modules, keep, rng, n):
     """Strict single rules whose named modules have at most `keep` components ('sub modules of' parents fewer)."""
-    mods = [list(m) for m in modules]
+    # (names with regex metacharacters - legal file names, never imported - are scanned and flattened like any other
+    # name but are not used in rules: C09's verdict law is about rules, not about how a rule spells an odd name)
+    mods = [list(m) for m in modules if all(c.isidentifier() for c in m)]
     named = [F("named", m) for m in mods if len(m) <= keep]
     sub = [F("sub", m) for m in mods if len(m) < keep]
     fs = named + sub
